@@ -34,6 +34,7 @@ import (
 	"os"
 	"reflect"
 	"runtime"
+	"runtime/debug"
 	"sort"
 	"strconv"
 	"strings"
@@ -66,6 +67,15 @@ var vc06Main = []vc06Sym{
 // number, curly brackets and '<' left out); enumerated one symbol longer than vc06Main.
 var vc06Reduced = []vc06Sym{
 	{"a", lex.TLiteral}, {`"q r"`, lex.TQuoted}, {"7", lex.TLiteral}, {"w*", lex.TLiteral}, {"/r/", lex.TRegexp},
+	{"AND", lex.TAnd}, {"OR", lex.TOr}, {"NOT", lex.TNot}, {"TO", lex.TTO},
+	{"(", lex.TLParen}, {")", lex.TRParen}, {"[", lex.TLSquare}, {"]", lex.TRSquare},
+	{":", lex.TColon}, {"=", lex.TEqual}, {">", lex.TGreater}, {"+", lex.TPlus}, {"-", lex.TMinus},
+	{"~", lex.TTilde}, {"^", lex.TCarrot},
+}
+
+// vc06Small: a still smaller sub-alphabet for the longest layer of the thorough tier.
+var vc06Small = []vc06Sym{
+	{"a", lex.TLiteral}, {"7", lex.TLiteral}, {"w*", lex.TLiteral},
 	{"AND", lex.TAnd}, {"OR", lex.TOr}, {"NOT", lex.TNot}, {"TO", lex.TTO},
 	{"(", lex.TLParen}, {")", lex.TRParen}, {"[", lex.TLSquare}, {"]", lex.TRSquare},
 	{":", lex.TColon}, {"=", lex.TEqual}, {">", lex.TGreater}, {"+", lex.TPlus}, {"-", lex.TMinus},
@@ -236,7 +246,8 @@ const (
 	vc06FLeaf                   // a leaf does not carry the typed value of its token
 	vc06FEmpty                  // empty groups () were silently dropped
 	vc06FParenField             // the field name of field:E stands inside parentheses
-	vc06NFlags      = 8
+	vc06FRangeBound             // a range bound is a compound expression, not a single term
+	vc06NFlags      = 9
 )
 
 var vc06FlagCat = [vc06NFlags]string{
@@ -248,6 +259,7 @@ var vc06FlagCat = [vc06NFlags]string{
 	"leaf-typed-value",
 	"empty-group-dropped",
 	"parenthesized-field-name",
+	"range-bound-not-a-term",
 }
 
 type vc06Pair struct {
@@ -428,12 +440,12 @@ func (m *vc06M) node1(e *expr.Expression, i, j int) vc06Res {
 		if m.typ(c+1) != want || (n == 3 && m.typ(c+2) != lex.TEqual) {
 			break
 		}
-		if j == c+n+1 {
-			if v := m.leaf(e.Right, c+n, false); v.ok {
+		if r, isE := e.Right.(*expr.Expression); isE && vc06IsLeaf(r) {
+			// a single value (a group around it adds nothing)
+			if v := m.node(r, c+n, j); v.ok {
 				return vc06Res{true, vc06Cat(f.w, v.w)}
 			}
-		}
-		if m.flags&vc06FCmp != 0 {
+		} else if m.flags&vc06FCmp != 0 {
 			if v := m.node(e.Right, c+n, j); v.ok {
 				return vc06Res{true, vc06Cat(f.w, v.w)}
 			}
@@ -444,6 +456,22 @@ func (m *vc06M) node1(e *expr.Expression, i, j int) vc06Res {
 			break
 		}
 		f, c := m.field(e.Left, i, j) // then  : [ a TO b ]
+		if f.ok && m.flags&vc06FRangeBound != 0 && j-c >= 6 && m.fieldOp(c, false) {
+			// relaxed: field : [ E TO E ] with arbitrary expressions as bounds
+			o, cl := m.typ(c+1), m.typ(j-1)
+			if ((o == lex.TLSquare && cl == lex.TRSquare) == b.Inclusive) && (o == lex.TLSquare || o == lex.TLCurly) && (cl == lex.TRSquare || cl == lex.TRCurly) {
+				for p := c + 3; p < j-2; p++ {
+					if m.typ(p) != lex.TTO {
+						continue
+					}
+					if lo := m.node(b.Min, c+2, p); lo.ok {
+						if hi := m.node(b.Max, p+1, j-1); hi.ok {
+							return vc06Res{true, vc06Cat(vc06Cat(f.w, lo.w), hi.w)}
+						}
+					}
+				}
+			}
+		}
 		if !f.ok || j != c+6 || !m.fieldOp(c, false) || m.typ(c+3) != lex.TTO {
 			break
 		}
@@ -856,12 +884,20 @@ func vc06NewStats() *vc06Stats {
 	return &vc06Stats{byCat: map[string]int64{}, best: map[string][]vc06Fail{}}
 }
 
-func (s *vc06Stats) keep(cat string, f vc06Fail) {
+// keep records f as a witness of cat if it is among the three smallest; the message is
+// only built then (mk == nil: f.msg is already there).
+func (s *vc06Stats) keep(cat string, f vc06Fail, mk func() string) {
 	l := s.best[cat]
 	for _, g := range l {
 		if g.input == f.input { // one message per input and category
 			return
 		}
+	}
+	if len(l) == 3 && !f.less(l[2]) {
+		return
+	}
+	if mk != nil {
+		f.msg = mk()
 	}
 	l = append(l, f)
 	sort.Slice(l, func(a, b int) bool { return l[a].less(l[b]) })
@@ -871,13 +907,13 @@ func (s *vc06Stats) keep(cat string, f vc06Fail) {
 	s.best[cat] = l
 }
 
-func (s *vc06Stats) fail(cat string, ntok int, input, msg string) {
-	s.failN(cat, 1, ntok, input, msg)
+func (s *vc06Stats) fail(cat string, ntok int, input string, mk func() string) {
+	s.failN(cat, 1, ntok, input, mk)
 }
 
-func (s *vc06Stats) failN(cat string, ncat, ntok int, input, msg string) {
+func (s *vc06Stats) failN(cat string, ncat, ntok int, input string, mk func() string) {
 	s.byCat[cat]++
-	s.keep(cat, vc06Fail{ncat, ntok, s.rnd, input, msg})
+	s.keep(cat, vc06Fail{ncat: ncat, ntok: ntok, rnd: s.rnd, input: input}, mk)
 }
 
 func (s *vc06Stats) merge(o *vc06Stats) {
@@ -888,7 +924,7 @@ func (s *vc06Stats) merge(o *vc06Stats) {
 	}
 	for c, l := range o.best {
 		for _, f := range l {
-			s.keep(c, f)
+			s.keep(c, f, nil)
 		}
 	}
 }
@@ -911,7 +947,7 @@ func vc06Check(st *vc06Stats, in string, want []vc06Sym) {
 		}
 		e, err, pan := vc06Parse(in, df)
 		if pan != "" {
-			st.fail("panic", len(want), in, fmt.Sprintf("[panic] %s : Parse (%s) panicked: %s", q, cfg, pan))
+			st.fail("panic", len(want), in, func() string { return fmt.Sprintf("[panic] %s : Parse (%s) panicked: %s", q, cfg, pan) })
 			continue
 		}
 		if err == nil && e != nil {
@@ -924,7 +960,7 @@ func vc06Check(st *vc06Stats, in string, want []vc06Sym) {
 	st.accepted++
 	toks, lexOK, pan := vc06Tokens(in)
 	if pan != "" {
-		st.fail("panic", len(want), in, fmt.Sprintf("[panic] %s : the lexer panicked: %s", q, pan))
+		st.fail("panic", len(want), in, func() string { return fmt.Sprintf("[panic] %s : the lexer panicked: %s", q, pan) })
 		return
 	}
 	if want != nil {
@@ -934,13 +970,17 @@ func vc06Check(st *vc06Stats, in string, want []vc06Sym) {
 		}
 		if !same {
 			st.fail("token-list-differs-from-typed-symbols", len(want), in,
-				fmt.Sprintf("[token-list-differs-from-typed-symbols] %s : expected the %d space-separated symbols as tokens, lexer returned %v (complete=%v)", q, len(want), toks, lexOK))
+				func() string {
+					return fmt.Sprintf("[token-list-differs-from-typed-symbols] %s : expected the %d space-separated symbols as tokens, lexer returned %v (complete=%v)", q, len(want), toks, lexOK)
+				})
 		}
 	}
 	for _, o := range acc {
 		if !lexOK {
 			st.fail("accepted-despite-lexical-error", len(toks), in,
-				fmt.Sprintf("[accepted-despite-lexical-error] %s : the lexer reports an error after %d tokens, expected rejection, Parse (%s) returned %s", q, len(toks), o.cfg, vc06Show(o.e)))
+				func() string {
+					return fmt.Sprintf("[accepted-despite-lexical-error] %s : the lexer reports an error after %d tokens, expected rejection, Parse (%s) returned %s", q, len(toks), o.cfg, vc06Show(o.e))
+				})
 			continue
 		}
 		cats := vc06Derive(toks, o.e, o.df)
@@ -950,7 +990,9 @@ func vc06Check(st *vc06Stats, in string, want []vc06Sym) {
 				why = "no derivation of the tokens in the documented grammar yields this tree"
 			}
 			st.failN(cat, len(cats), len(toks), in,
-				fmt.Sprintf("[%s] %s : expected the tree to be a derivation of the %d tokens %v in the documented grammar (%s); Parse (%s) returned %s", cat, q, len(toks), toks, why, o.cfg, vc06Show(o.e)))
+				func() string {
+					return fmt.Sprintf("[%s] %s : expected the tree to be a derivation of the %d tokens %v in the documented grammar (%s); Parse (%s) returned %s", cat, q, len(toks), toks, why, o.cfg, vc06Show(o.e))
+				})
 		}
 	}
 }
@@ -963,6 +1005,7 @@ var vc06Why = map[string]string{
 	"fuzzy-boost-amount-not-a-number-token": "in E~n / E^n the amount is one number token; here other tokens (an operator, a group, a quoted string, a word) were folded into the amount and have no node",
 	"fuzzy-boost-amount-value":              "the distance/power stored in the node is not the number that was typed",
 	"empty-group-dropped":                   "brackets pair up around non-empty groups; an empty () was dropped silently",
+	"range-bound-not-a-term":                "field:[a TO b] has single terms as bounds; the tree holds a compound expression there",
 	"parenthesized-field-name":              "the field of field:E is a single term token; here the field name was taken from a parenthesized group",
 	"leaf-typed-value":                      "a leaf does not carry the typed value of its term token",
 	"field-leaf-typed-value":                "the field leaf does not carry the value of its term token",
@@ -1069,35 +1112,28 @@ var vc06Templates = [][]string{
 	{"NOT", "a", ":", "b", "~", "7", "^", "7"},
 }
 
-// vc06Covered: the canonical rendering of these symbols already belongs to one of the
-// exhaustive domains (1)-(3), so other domains skip it (inputs are counted once).
-type vc06Bounds struct{ mainLen, redLen, extraLen int }
+// vc06Bounds: the exhaustive token layers (alphabet, longest sequence); a canonical
+// rendering that belongs to one of them is skipped by the other parts of the domain, so
+// that every input is counted once.
+type vc06Layer struct {
+	alpha  []vc06Sym
+	maxLen int
+}
+
+type vc06Bounds []vc06Layer
 
 func (b vc06Bounds) covered(parts []string) bool {
-	if len(parts) <= b.mainLen {
-		inMain := true
-		for _, p := range parts {
-			inMain = inMain && vc06In(vc06Main, p)
+	for _, l := range b {
+		if len(parts) > l.maxLen {
+			continue
 		}
-		if inMain {
+		in := true
+		for _, p := range parts {
+			in = in && vc06In(l.alpha, p)
+		}
+		if in {
 			return true
 		}
-	}
-	if len(parts) <= b.redLen {
-		inRed := true
-		for _, p := range parts {
-			inRed = inRed && vc06In(vc06Reduced, p)
-		}
-		if inRed {
-			return true
-		}
-	}
-	if len(parts) <= b.extraLen {
-		known := true
-		for _, p := range parts {
-			known = known && (vc06In(vc06Main, p) || vc06In(vc06Extra, p))
-		}
-		return known
 	}
 	return false
 }
@@ -1273,15 +1309,20 @@ func (g *vc06Gen) input(all []vc06Sym) string {
 
 func vc06Random(seed int64, count int, bounds vc06Bounds, total *vc06Stats, samples *[]string) (distinct int) {
 	all := append(append([]vc06Sym{}, vc06Main...), vc06Extra...)
-	workers := runtime.NumCPU()
+	// a fixed number of independent streams, so that the sample does not depend on the
+	// number of CPUs; the streams are distributed over the available cores
+	const workers = 64
 	per := count / workers
 	sets := make([]map[uint64]string, workers)
 	stats := make([]*vc06Stats, workers)
 	var wg sync.WaitGroup
+	slots := make(chan struct{}, runtime.NumCPU())
 	for w := 0; w < workers; w++ {
 		wg.Add(1)
 		go func(w int) {
 			defer wg.Done()
+			slots <- struct{}{}
+			defer func() { <-slots }()
 			g := &vc06Gen{rand.New(rand.NewSource(seed*1000003 + int64(w)))}
 			st := vc06NewStats()
 			st.rnd = true
@@ -1361,7 +1402,7 @@ func vc06SelfTest() (bad []string) {
 		{`"7"`, "", lit(7), "quoted-string-retyped-as-number"},
 		{"a", "", expr.Eq(lit("d"), lit("a")), "term-invented"}, // default-field wrapper without the option
 		{"( ( ) NOT a )", "", expr.NOT(lit("a")), "empty-group-dropped"},
-		{"a : [ b : c TO 5 ]", "", expr.Rang(lit("a"), expr.Eq(lit("b"), lit("c")), lit(5), true), "no-derivation"},
+		{"a : [ b : c TO 5 ]", "", expr.Rang(lit("a"), expr.Eq(lit("b"), lit("c")), lit(5), true), "range-bound-not-a-term"},
 		{"a : [ 1 TO 5 }", "", expr.Rang(lit("a"), lit(1), lit(5), false), "range-mixed-brackets"},
 		{"a : [ 1 TO 5 ]", "", expr.Rang(lit("a"), lit(1), lit(5), false), "no-derivation"},
 		{"a ~ 2", "", expr.FUZZY(lit("a"), 3), "fuzzy-boost-amount-value"},
@@ -1412,18 +1453,20 @@ func vc06EnvInt(name string, def int) int {
 }
 
 func TestVerifStandin_C06(t *testing.T) {
+	defer debug.SetGCPercent(debug.SetGCPercent(400)) // allocation-heavy: collect less often
 	tier := os.Getenv("VERIF_TIER")
 	if tier != "thorough" {
 		tier = "quick"
 	}
 	seed := int64(vc06EnvInt("VERIF_SEED", 1))
-	// quick: main alphabet to 4, reduced alphabet at 5; thorough: 5 and 6
-	mainLen, extraLen, randomN := 4, 3, 300000
+	// quick: main alphabet to 4, 20-symbol sub-alphabet at 5; thorough: main alphabet to 5,
+	// 18-symbol sub-alphabet at 6
+	mainLen, extraLen, randomN, top := 4, 3, 300000, vc06Reduced
 	if tier == "thorough" {
-		mainLen, extraLen, randomN = 5, 4, 3000000
+		mainLen, extraLen, randomN, top = 5, 4, 3000000, vc06Small
 	}
 	mainLen = vc06EnvInt("VERIF_C06_LEN", mainLen)
-	redLen := vc06EnvInt("VERIF_C06_RLEN", mainLen+1)
+	topLen := vc06EnvInt("VERIF_C06_RLEN", mainLen+1)
 	extraLen = vc06EnvInt("VERIF_C06_XLEN", extraLen)
 	randomN = vc06EnvInt("VERIF_C06_RANDOM", randomN)
 
@@ -1444,10 +1487,10 @@ func TestVerifStandin_C06(t *testing.T) {
 		bound = "replay of the single input given in VERIF_INPUT, without and with default field"
 	} else {
 		all := append(append([]vc06Sym{}, vc06Main...), vc06Extra...)
-		bounds := vc06Bounds{mainLen, redLen, extraLen}
+		bounds := vc06Bounds{{vc06Main, mainLen}, {top, topLen}, {all, extraLen}}
 		vc06Check(total, "", []vc06Sym{})
 		n1 := 1 + vc06Enumerate(vc06Main, 1, mainLen, -1, total)
-		n2 := vc06Enumerate(vc06Reduced, mainLen+1, redLen, -1, total)
+		n2 := vc06Enumerate(top, mainLen+1, topLen, -1, total)
 		n3 := vc06Enumerate(all, 1, extraLen, len(vc06Main), total)
 		n4 := vc06Neighbourhood(all, bounds, total)
 		n5 := vc06Random(seed, randomN, bounds, total, &samples)
@@ -1458,7 +1501,7 @@ func TestVerifStandin_C06(t *testing.T) {
 			"(4) every sequence within two substitutions, one deletion or one insertion (over the %d symbols of (3)) of %d longer sentences %v (%d inputs); "+
 			"(5) %d distinct seeded random inputs: grammar-generated queries with up to 2 token mutations and arbitrary sequences of 6..12 tokens, random layout. "+
 			"Non-trivial = accepted by Parse in at least one configuration, so that the derivation check ran.",
-			vc06Field, mainLen, len(vc06Main), vc06Texts(vc06Main), n1, mainLen+1, redLen, len(vc06Reduced), vc06Texts(vc06Reduced), n2,
+			vc06Field, mainLen, len(vc06Main), vc06Texts(vc06Main), n1, mainLen+1, topLen, len(top), vc06Texts(top), n2,
 			extraLen, len(vc06Extra), vc06Texts(vc06Extra), n3, len(all), len(vc06Templates), vc06Templates, n4, n5)
 	}
 
